@@ -44,6 +44,13 @@ def batch(drv, reqs):
     return out
 
 
+def unexplained(ctx, core):
+    """The violations that no `finding` entry of known_findings.json explains (those decide the verdict)."""
+    sigs = {k.get("signature") for k in core.load_known()
+            if k.get("property") == ctx.pid and k.get("status") == "finding"}
+    return [v for v in ctx.violations if v.get("signature") is None or v.get("signature") not in sigs]
+
+
 def scalar_kind(v):
     if isinstance(v, str):
         return "str"
